@@ -18,6 +18,31 @@ structure AstAndDef where
 /-- `OrderedMap<&str, Vec<AstAndDef>>`: response name ↦ fields, keys in insertion order -/
 abbrev FieldMap := List (Name × List AstAndDef)
 
+/-- the type an inline fragment's selections are collected on: its (declared) type condition, else the enclosing type -/
+def inlineParent (s : Schema) (tc : Option Name) (parent : Option TypeDef) : Option TypeDef :=
+  match tc.bind s.typeByName with
+  | some t => some t
+  | none => parent
+
+mutual
+def selDepth : Selection → Nat
+  | .field _ _ _ _ _ sel => 1 + selsDepth sel
+  | .spread _ _ _ => 1
+  | .inline _ _ _ sel => 1 + selsDepth sel
+def selsDepth : List Selection → Nat
+  | [] => 0
+  | x :: xs => max (selDepth x) (selsDepth xs)
+end
+
+def Definition.selections : Definition → List Selection
+  | .op o => o.sel
+  | .frag f => f.sel
+
+/-- maximal nesting of selections in the document -/
+def docDepth : Document → Nat
+  | [] => 0
+  | x :: xs => max (selsDepth x.selections) (docDepth xs)
+
 mutual
 /-- `collect_fields_and_fragment_names` -/
 def mergeCollectSel (s : Schema) (parent : Option TypeDef) :
@@ -27,9 +52,7 @@ def mergeCollectSel (s : Schema) (parent : Option TypeDef) :
       let fd := parent.bind (·.fieldByName name)
       (alUpdate fm f.responseKey [] (· ++ [⟨parent, f, fd⟩]), fns)
   | .spread _ name _, (fm, fns) => (fm, if fns.contains name then fns else fns ++ [name])
-  | .inline _ tc _ sel, acc =>
-      let fragType := match tc.bind s.typeByName with | some t => some t | none => parent
-      mergeCollectSels s fragType sel acc
+  | .inline _ tc _ sel, acc => mergeCollectSels s (inlineParent s tc parent) sel acc
 def mergeCollectSels (s : Schema) (parent : Option TypeDef) :
     List Selection → FieldMap × List Name → FieldMap × List Name
   | [], acc => acc
@@ -67,6 +90,12 @@ def isTypeConflict (s : Schema) : Ty → Ty → Bool
   | .named a, .named b =>
       if s.isLeafName a || s.isLeafName b then a != b else false
 
+/-- the declared types of the two fields when both are known and conflict -/
+def typeConflictOf (s : Schema) (a b : AstAndDef) : Option (Ty × Ty) :=
+  match a.fdef, b.fdef with
+  | some x, some y => if isTypeConflict s x.ty y.ty then some (x.ty, y.ty) else none
+  | _, _ => none
+
 /-- `PairSet`: both orders are stored with the same flag -/
 abbrev PairSet := List ((Name × Name) × Bool)
 
@@ -101,6 +130,20 @@ def subfieldConflicts (cs : List Conflict) (key : Name) (p1 p2 : Pos) : Option C
   else some ⟨key, .nested (cs.map fun c => (c.key, c.reason)),
     p1 :: cs.flatMap (·.pos1), p2 :: cs.flatMap (·.pos1)⟩
 
+/-- append the conflict of one comparison, if any; keep its state -/
+def pushConflict (acc : MRes) (r : Option Conflict × MState) : MRes :=
+  (match r.1 with | some c => acc.1 ++ [c] | none => acc.1, r.2)
+
+/-- one field of the first map against the fields of the same key in the second -/
+def betweenFieldsStep (fc : Name → AstAndDef → AstAndDef → Bool → MState → Option Conflict × MState)
+    (key : Name) (me : Bool) (fields2 : List AstAndDef) (acc : MRes) (f1 : AstAndDef) : MRes :=
+  fields2.foldl (fun (acc : MRes) f2 => pushConflict acc (fc key f1 f2 me acc.2)) acc
+
+/-- one entry of the first map against the entry of the same key in the second (if any) -/
+def betweenKeyStep (fc : Name → AstAndDef → AstAndDef → Bool → MState → Option Conflict × MState)
+    (me : Bool) (fm2 : FieldMap) (acc : MRes) (kv : Name × List AstAndDef) : MRes :=
+  kv.2.foldl (betweenFieldsStep fc kv.1 me ((alGet fm2 kv.1).getD [])) acc
+
 /-- all pairs `(x, y)` with `x` before `y` -/
 def orderedPairs {α : Type} : List α → List (α × α)
   | [] => []
@@ -120,13 +163,11 @@ def findConflict (s : Schema) (d : Document) :
     else if !me && !sameArguments a.field.args b.field.args then
       (some ⟨key, .differingArguments, [a.field.pos], [b.field.pos]⟩, st)
     else
-      let t1 := a.fdef.map (·.ty)
-      let t2 := b.fdef.map (·.ty)
-      match (match t1, t2 with | some x, some y => if isTypeConflict s x y then some (x, y) else none | _, _ => none) with
+      match typeConflictOf s a b with
       | some (x, y) => (some ⟨key, .conflictingTypes x y, [a.field.pos], [b.field.pos]⟩, st)
       | none =>
         if !a.field.sel.isEmpty && !b.field.sel.isEmpty then
-          let r := betweenSubSelectionSets s d n me (t1.map (·.inner)) a.field.sel (t2.map (·.inner)) b.field.sel st
+          let r := betweenSubSelectionSets s d n me (a.fdef.map (·.ty.inner)) a.field.sel (b.fdef.map (·.ty.inner)) b.field.sel st
           (subfieldConflicts r.1 key a.field.pos a.field.pos, r.2)
         else (none, st)
 
@@ -136,14 +177,7 @@ def conflictsBetween (s : Schema) (d : Document) :
   | 0, _, _, _, st => ([], { st with stuck := true })
   | n + 1, me, fm1, fm2, st =>
     if st.stuck then ([], st) else
-    fm1.foldl (fun (acc : MRes) (kv : Name × List AstAndDef) =>
-      match alGet fm2 kv.1 with
-      | none => acc
-      | some fields2 =>
-        kv.2.foldl (fun (acc : MRes) f1 =>
-          fields2.foldl (fun (acc : MRes) f2 =>
-            let r := findConflict s d n kv.1 f1 f2 me acc.2
-            (match r.1 with | some c => acc.1 ++ [c] | none => acc.1, r.2)) acc) acc) ([], st)
+    fm1.foldl (betweenKeyStep (findConflict s d n) me fm2) ([], st)
 
 /-- `find_conflicts_between_sub_selection_sets` -/
 def betweenSubSelectionSets (s : Schema) (d : Document) :
@@ -211,8 +245,7 @@ end
 def conflictsWithin (s : Schema) (d : Document) (fuel : Nat) (fm : FieldMap) (st : MState) : MRes :=
   fm.foldl (fun (acc : MRes) (kv : Name × List AstAndDef) =>
     (orderedPairs kv.2).foldl (fun (acc : MRes) p =>
-      let r := findConflict s d fuel kv.1 p.1 p.2 false acc.2
-      (match r.1 with | some c => acc.1 ++ [c] | none => acc.1, r.2)) acc) ([], st)
+      pushConflict acc (findConflict s d fuel kv.1 p.1 p.2 false acc.2)) acc) ([], st)
 
 /-- `find_conflicts_within_selection_set` -/
 def conflictsWithinSelectionSet (s : Schema) (d : Document) (fuel : Nat) (parent : Option TypeDef)
@@ -230,7 +263,9 @@ def conflictsWithinSelectionSet (s : Schema) (d : Document) (fuel : Nat) (parent
       loop rest acc
   loop c.2 r
 
-def mergeFuel : Nat := 400
+/-- recursion budget of the model: three levels of calls per level of nesting, plus room for
+    fragment chains (the real recursion is unbounded on some cyclic documents: finding F16) -/
+def mergeFuel (d : Document) : Nat := 400 + 3 * docDepth d
 
 structure MergeRuleState where
   compared : PairSet := []
@@ -244,7 +279,7 @@ def overlappingFieldsCanBeMerged : Rule where
   on := fun s d st e =>
     match e.1 with
     | .enter (.selectionSet sel) =>
-      let r := conflictsWithinSelectionSet s d mergeFuel e.2.parent sel
+      let r := conflictsWithinSelectionSet s d (mergeFuel d) e.2.parent sel
         { compared := st.compared, visited := [], stuck := false, guardHit := false }
       ({ compared := r.2.compared, stuck := st.stuck || r.2.stuck, guardHit := st.guardHit || r.2.guardHit },
        r.1.map fun c => ⟨.overlappingFieldsCanBeMerged, c.pos1 ++ c.pos2, .fieldsConflict c.key c.reason⟩)
